@@ -36,6 +36,9 @@ def instances(tier):
     for g in (4, 5):
         for what in ("ac", "zone", "unchanged"):
             out.append({"kind": "reconnect", "gen": g, "what": what})
+        # the loss shows up as a clean EOF, or as an EOF in the middle of a frame (half a status frame was received)
+        out.append({"kind": "reconnect", "gen": g, "what": "ac", "how": "eof"})
+        out.append({"kind": "reconnect", "gen": g, "what": "zone", "how": "eof_midframe"})
     for g in (4, 5):
         out.append({"kind": "half_open", "gen": g, "retries": "zero"})
         out.append({"kind": "half_open", "gen": g, "retries": "some"})
@@ -105,7 +108,15 @@ def _reconnect(ctx, p):
             n_before["n"] = len(con.requests)
             c = rig.net.current()
             if c is not None:
-                c.reset()
+                how = p.get("how", "reset")
+                if how == "reset":
+                    c.reset()
+                elif how == "eof":
+                    c.eof()
+                else:
+                    raw = [int(b) for b in con.ac_status_frame(pid=0x6A)]      # (the AC records are concrete in this instance)
+                    c.send(bytes(raw[: len(raw) // 2]))
+                    c.eof()
 
         n_before = {"n": None}
         rig.loop.vt_call_at(t_drop, drop)
